@@ -10,6 +10,10 @@ drv_c05 — line protocol (C05 and C06 share it):
       replays an observed history (events of all instances in observation order) on the model:
       -> `accept n=<events> joins=<inst>:<some v|none>,.. complete=<b> bad=<b> raced=<b> heap=<live blocks> maps=<live mappings> leaked=<panicked closures> dpanics=<n> frees=<inst>:<tsm>/<tls>/<stack>/<box>,..`
       -> `reject <k> inst=<i> ev=<event> h=<pc> t=<pc> ...` when the model's party would not take that step there
+  thrn <the 12 parameters> <hTidDrop> <hTidDealloc> : <i> own=<j> ; ... ; <inst> <event> ; ...
+      the same for a nested family (Model/Thread Part 3, `stepN`): `<i> own=<j>` = the handle side of instance i is executed by
+      the thread of instance j (which must be inside its closure for every handle-side event of i); the two extra parameters say
+      whether Drop for JoinHandle / Tsm::dealloc issue set_tid_address(0) on the executing thread; a reject names the owner
   events: hAllocTsm hBox hMmap=<0|1> hAllocTls hClone=<0|1> hUndoTls hUndoStack hUndoBox hUndoTsm hJoin hDrop
           hLoad=<v> hFwait=<park 0|1> hEintr hSpur hReadSlot hFreeTsm hCas=<0|1>
           tRet=<v> tPanic tWrite tPanicRead tCas=<0|1> tSetTid tDropVal tDropPanic tFreeTsm tFreeTls tFreeBox tMunmap tExit kExit
@@ -86,6 +90,34 @@ def replay (c : Cfg) : St → Nat → List Nat → List (List String) → String
       | _, _ => s!"bad-op event {k}"
     | _ => s!"bad-op event {k}"
 
+/-- nested families: `<i> own=<j>` declares that the handle side of instance i is executed by the thread of instance j -/
+def ownerOf (m : List (Nat × Nat)) (i : Nat) : Option Nat := (m.find? (fun p => p.1 == i)).map (·.2)
+
+def replayN (c : Cfg) (hd hf : Bool) : List (Nat × Nat) → St → Nat → List Nat → List (List String) → String
+  | _, s, k, ids, [] => summary s ids k
+  | m, s, k, ids, ev :: rest =>
+    match ev with
+    | [is, es] =>
+      match is.toNat?, es.splitOn "=" with
+      | some i, ["own", js] =>
+        match js.toNat? with
+        | some j => replayN c hd hf ((i, j) :: m) s k ids rest
+        | none => s!"bad-op event {k}"
+      | some i, _ =>
+        match parseEv es with
+        | some e =>
+          match stepN c ⟨ownerOf m, hd, hf⟩ s i e with
+          | some s' => replayN c hd hf m s' (k + 1) (insertId i ids) rest
+          | none =>
+            let x := s.inst i
+            let o := match ownerOf m i with
+              | none => "main"
+              | some j => s!"{j}(t={reprStr (s.inst j).t})"
+            s!"reject {k} inst={i} ev={es} h={reprStr x.h} t={reprStr x.t} flag={x.flag} word={x.word} kdone={x.kdone} ctid={x.ctid} owner={o}"
+        | none => s!"bad-op event {k}"
+      | _, _ => s!"bad-op event {k}"
+    | _ => s!"bad-op event {k}"
+
 def stepLine (_ : Unit) (line : String) : Unit × String :=
   match Drv.words line with
   | ["layout", a, b] =>
@@ -102,6 +134,13 @@ def stepLine (_ : Unit) (line : String) : Unit × String :=
       let evs := (splitTok ";" rest).filter (· ≠ [])
       ((), replay c St.init 0 [] evs)
     | _, _, _, _, _, _, _, _, _, _, _, _ => ((), "bad-op")
+  | "thrn" :: a1 :: a2 :: a3 :: a4 :: a5 :: a6 :: a7 :: a8 :: a9 :: a10 :: a11 :: a12 :: t1 :: t2 :: ":" :: rest =>
+    match bit a1, bit a2, a3.toNat?, a4.toNat?, a5.toNat?, bit a6, bit a7, bit a8, bit a9, bit a10, bit a11, bit a12, bit t1, bit t2 with
+    | some b1, some b2, some n3, some n4, some n5, some b6, some b7, some b8, some b9, some b10, some b11, some b12, some hd, some hf =>
+      let c : Cfg := ⟨b1, b2, n3, n4, n5, b6, b7, b10, b11, b12, b8, b9⟩
+      let evs := (splitTok ";" rest).filter (· ≠ [])
+      ((), replayN c hd hf [] St.init 0 [] evs)
+    | _, _, _, _, _, _, _, _, _, _, _, _, _, _ => ((), "bad-op")
   | _ => ((), "bad-op")
 
 def main : IO Unit := Drv.run stepLine ()
